@@ -1,19 +1,21 @@
 """C08 — the response depends only on its request; same answer over HTTP/1.0, HTTP/1.1 and HTTP/2.
 
-Three correspondence streams:
-  reset(h_reset)     in-process: dirty a real request_st through the real parser + response-side
-                     setters, run request_reset()/request_reset_ex()/request_release(), dump every
-                     scalar/buffer field and compare with the Lean model of the reset functions
-                     (Model/Reset.lean) and with a freshly initialised object
+Correspondence streams:
+  reset(h_reset)     in-process: dirty a real request_st through the real parsers + response-side
+                     setters, run request_reset()/request_reset_ex()/request_release()/h2_init_stream()/
+                     connection_handle_response_end_state(), dump every scalar/buffer field and compare
+                     with the Lean model (Model/Reset.lean) and with a freshly initialised object
   parse(h_reset)     in-process: the same request head parsed into a fresh and into a recycled
-                     request_st (h1: http_request_headers_process, h2: http_request_parse_header +
-                     http_request_headers_process_h2) must give the same parsed request; compared
-                     with the Lean h1/h2 parsers (Model/H1Parse.lean, Model/Server.lean)
+                     request_st must give the same parsed request (after a rejection: the same status,
+                     method, version); compared with the Lean h1/h2 parsers (Model/Server.lean)
   e2e metamorphic    real server: probe R alone on a fresh connection vs R after generated histories
                      (keep-alive, pipelined, earlier/concurrent HTTP/2 streams, recycled connection
-                     objects, other connections) and the same semantic request over HTTP/1.0, 1.1 and
-                     h2; the Lean connection automaton (Model/Server.lean) predicts status / body /
-                     connection fate for the modelled part of the site
+                     objects, other connections, h2c) and the same semantic request over 1.0, 1.1, h2
+  e2e cold start     each probe as the first request a fresh server ever sees vs the warm reference
+                     (server-wide state: deflate cache on disk, stat cache) + content-coding oracle
+  e2e model          the Lean connection automaton predicts status / body / connection fate / selected
+                     headers for sequences on the modelled part of the site (incl. POST to a CGI sink,
+                     413, HTTP/1.0 downgrade block, blank-line messages, rejected HEADs)
 """
 import hashlib, os, re, socket, struct, time, base64, json, threading
 from concurrent.futures import ThreadPoolExecutor
@@ -21,19 +23,38 @@ from .. import common as C
 from .. import e2e
 
 MANIFEST = dict(
-    text="Lean 4 theorems over an executable model of the per-request state of lighttpd (request_st "
-         "fields, request_reset / request_reset_ex / http_response_reset / request_release / "
-         "h2_init_stream) and of a connection automaton (h1 keep-alive / pipelining, h2 streams): "
-         "after reset every field the next request reads before writing has its initial value, hence "
-         "the response to R after any history equals the response to R alone; h1 and h2 parsing of "
-         "the same semantic request give the same request record.  Tied to the C by an in-process "
-         "reset/parse differential (h_reset, ASan/UBSan) and an end-to-end metamorphic stream against "
-         "the real server (static, CGI env dump, auth, ranges, rewrites, conditionals; h1.0/h1.1/h2)",
-    note="trusted: Lean kernel, hand-written models validated by h_reset and the e2e stream; modules "
-         "not in the model (auth, cgi, deflate, ssi, dirlisting, extforward ...) are covered by the "
-         "metamorphic comparison only; TLS not exercised",
-    tech="Lean 4 proof over hand-written model + differential correspondence (in-process C harness) "
-         "+ end-to-end metamorphic correspondence (real server)",
+    text="PROVED, over a hand-written executable model (Lean 4): the model of request_reset / "
+         "request_reset_ex / request_release restores every field of the groups ReqLive / ReqKept, given "
+         "that each module that used its r->plugin_ctx slot registered a clearing reset hook (witness "
+         "theorem: a slot without such a hook survives); every member of struct request_st and struct "
+         "connection (clang AST) is classified (restored / carried-unread / constant / scratch / "
+         "connection-level) and every source file that stores into r->plugin_ctx[] registers a hook that "
+         "clears it (textual extractor); on the modelled HTTP/1.x connection (static files, index, "
+         "access-deny, setenv, a body-reading handler, 4 kinds of conditional blocks, 413, HTTP/1.0 "
+         "downgrade) the answer to a request that starts with a non-control byte, after ANY history of "
+         "such requests that left the connection open, is a function of site, configuration and that "
+         "request alone, also on a closed-and-reaccepted connection object; an HTTP/2 stream is answered "
+         "from its own header fields whatever pooled request object it gets, and the connection-level "
+         "request h2r reaches the answer only through its configuration and server_name selector. "
+         "PARTIAL: HTTP/1.1 and HTTP/2 parsing store the same request record for GET-like requests with "
+         "plain lower-case fields (tokenised fields, no body, no Host/Connection/Content-Length/TE "
+         "specials); same answer over 1.0/1.1/h2 only for a bounded family of 48 requests (kernel "
+         "evaluation). TESTED ONLY: that the models are the C (in-process differential on reset, "
+         "keep-alive end, h2_init_stream, parse-into-recycled incl. method/version after a rejected "
+         "head; Lean connection automaton vs real server incl. blank lines, 413, 1.0 downgrade, POST to "
+         "CGI); history independence for everything outside the model — CGI environment, auth, "
+         "ranges, rewrite/redirect, deflate and its disk cache, dir listing, SSI, error handlers, "
+         "extforward, other connections, concurrent streams, h2c upgrade, cold vs warm server — by the "
+         "end-to-end metamorphic stream against the real server over HTTP/1.0/1.1/h2",
+    note="trusted: Lean kernel; the hand-written models (validated only by the differential streams); the "
+         "textual recogniser of reset hooks; e2e.py's response parser. Not modelled: the condition cache "
+         "evaluation (config_patch_config is stubbed in the harness; stale-cache safety rests on the "
+         "end-to-end stream), connection-level members (KF1 lives in con->proto_default_port), blank-line "
+         "rules are modelled and tested but outside the theorems, a stream is atomic (no interleaving), "
+         "HPACK / flow control (C05-C07), TLS, Range (C15)",
+    tech="Lean 4 proof over hand-written model + extracted struct/hook tables + differential correspondence "
+         "(in-process C harness, real server vs Lean connection automaton) + end-to-end metamorphic "
+         "testing (real server)",
     ref="6/C08")
 
 # =====================================================================================
@@ -1353,10 +1374,6 @@ def gen_rp(ctx):
         if not h2 and b"[" in blk:
             nskip += 1          # IPv6-literal hosts are not modelled (inet_pton), as in C01
             continue
-        if not h2 and re.search(rb"(?i)transfer-encoding[ \t]*:[ \t]*\r?\n(?![ \t])", blk):
-            ctx.dist["rp:skipped-empty-transfer-encoding"] += 1   # C01's shared parser model (400) and /repo HEAD
-            continue                                               # (field ignored) disagree: C01's business, reported
-
         lines.append("rp %s %d %s %s ; %s" % ("h2" if h2 else "h1", opts, op, " ".join(toks), probe))
     ctx.dist["rp:skipped-ipv6-literal-host"] = nskip
     return lines
@@ -1487,6 +1504,8 @@ def modelled_requests():
           Req("GET", "/cgi/sink.pl"),
           Req("POST", "/files/a.txt", [("Content-Length", "300000")], tag="m:413", no_end=True),
           Req("GET", "/h10/k.txt"), Req("HEAD", "/h10/k.txt"), Req("GET", "/h10/missing"),
+          Req("HEAD", "*"), Req("HEAD", "/files/a\x01.txt", tag="HEAD bad-ctl"),
+          Req("HEAD", "/files/a.txt", [("TE", "gzip")], tag="HEAD te-gzip"),
           Req("GET", "/files/b.txt", raw_h1=b"\r\n" + get_b, tag="m:blank-get"),
           Req("GET", "/files/b.txt", raw_h1=b"\n" + get_b, tag="m:lf-get"),
           Req("GET", "/files/b.txt", raw_h1=b"\r\n\r\n" + get_b, tag="m:blank2-get"),
